@@ -32,7 +32,7 @@
 (* bridge feeds); where the real code has an open finding that Read must   *)
 (* mirror to stay a model of it, the behaviour is switched by Defects.     *)
 (***************************************************************************)
-EXTENDS Naturals, Sequences, FiniteSets, TLC
+EXTENDS Naturals, Sequences, FiniteSets, TLC, FormDocCombos
 
 CONSTANTS Scope,    \* 0 = quick domains, 1 = larger domains (thorough)
           Defects   \* the open findings of known_findings/C16.json that the reference reader mirrors
@@ -154,8 +154,10 @@ PosType(pos, t) ==
 \* (a constant: TLC evaluates the table once)
 PosTypes == [key \in PosKeys |-> PosType(PosOf(key)[1], KindTy(PosOf(key)[2]))]
 
+\* (the combination battery: tag x header x body crossed; generated, with the Rust types, from ONE table: FormDocCombos.tla)
 TypeOf(key) ==
   IF key \in PosKeys THEN PosTypes[key] ELSE
+  IF key \in ComboKeys THEN ComboTypes[key] ELSE
   CASE key = "Duration" -> Struct("duration", "named", <<FD("secs", "secs", "slot", Prim("secs"), Zero), FD("nanos", "nanos", "slot", Prim("nanos"), Zero)>>)
     \* swimos_utilities::future::RetryStrategy (hand-written Form), the values its constructors build
     [] key = "RetryStrategy" -> Enum(<<
@@ -271,7 +273,7 @@ AllKeys == {"Unit", "Simple", "Two", "Tup", "Renamed", "TupRen", "WithAttr", "Tw
             "AttrVec", "AttrMap", "HdrBoth", "HdrVec", "HdrNest", "BodyVec", "BodyStr", "BodyNest", "Skippy", "SkipTup", "Opt", "Coll",
             "GenI", "GenS", "GenTwo", "GenOptTwo", "Nested", "VecNest", "NewT", "NewS", "TagField", "Shape",
             "OpSI", "OpITwo", "ConvStruct", "ConvEnum", "Nums", "ModelVal", "WithValue", "BodyValue", "HdrValue",
-            "i32", "u64", "f64", "bool", "String", "VecI", "OptI", "MapSI", "PairIS", "OptTwo", "VecTwo", "VecOptI", "Duration", "RetryStrategy", "Value", "AttrTup", "HBodyTup"} \cup ReuseKeys \cup PosKeys
+            "i32", "u64", "f64", "bool", "String", "VecI", "OptI", "MapSI", "PairIS", "OptTwo", "VecTwo", "VecOptI", "Duration", "RetryStrategy", "Value", "AttrTup", "HBodyTup"} \cup ReuseKeys \cup PosKeys \cup ComboKeys
 
 
 LevelNames == {"Info", "Warn"}
@@ -310,6 +312,10 @@ PrimDom(p, d) ==
       [] p = "value"  -> ValuePool(d)
       \* the position battery: one symbol per boundary class of the kind (the pools hold the kind limits and the
       \* values that force each MessagePack width)
+      \* the combination battery: one value per field (two with Scope > 0), the structure is what varies
+      [] p = "i32c"   -> IF Scope > 0 THEN {Sym("i", "0"), Sym("n", "0")} ELSE {Sym("i", "0")}
+      [] p = "boolc"  -> IF Scope > 0 THEN {Sym("b", "0"), Sym("b", "1")} ELSE {Sym("b", "0")}
+      [] p = "stringc" -> {Sym("s", "0")}
       [] p = "i32w"   -> {Zero, Sym("i", "0"), Sym("n", "0")}
       [] p = "i64w"   -> IF d <= 1 THEN {Zero, Sym("i", "0"), Sym("n", "0"), Sym("h", "0"), Sym("g", "0"), Sym("L", "0"), Sym("N", "0")}
                          ELSE {Sym("N", "0")}
@@ -465,13 +471,13 @@ Ok(x) == [ok |-> TRUE, x |-> x]
 
 IntClasses == {"i", "n", "g", "h", "G", "N", "B", "M", "T", "U", "z", "Z", "q", "c", "L"}
 ReadPrim(p, v) ==
-    LET acc == CASE p \in {"i32", "i32w"} -> {"i", "n", "z", "q", "Z", "c"}
+    LET acc == CASE p \in {"i32", "i32w", "i32c"} -> {"i", "n", "z", "q", "Z", "c"}
                  [] p \in {"i64", "i64w"} -> {"i", "n", "g", "h", "N", "T", "U", "z", "q", "Z", "c", "L"}
                  [] p \in {"u32", "u32w"} -> {"i", "h", "z", "q", "Z", "c"}
                  [] p \in {"u64", "u64w", "usize", "secs"} -> {"i", "g", "h", "G", "T", "z", "q", "Z", "c", "L"}
                  [] p \in {"f64", "f64w"} -> {"f"} \cup IntClasses
-                 [] p = "bool"   -> {"b"}
-                 [] p \in {"string", "stringw", "text"} -> {"s", "t", "r"}
+                 [] p \in {"bool", "boolc"} -> {"b"}
+                 [] p \in {"string", "stringw", "stringc", "text"} -> {"s", "t", "r"}
                  [] p = "nzusize" -> {"i", "q", "g", "h", "G", "L", "c"}
                  [] p = "uri"    -> {"r", "s", "t"}
                  [] p = "bigint" -> IntClasses
